@@ -67,6 +67,8 @@ type pushed struct {
 	undecodable string // "" or the reason
 	foreign     bool   // other database / unknown table: RunPollLoop ignores it
 	what        string
+	layout      *livesim.MySQLOrder // the version of the table the images were written under
+	tableMap    bool                // a TableMapEvent (never reaches the tracker)
 }
 
 // ---- tracker trace ----
@@ -124,6 +126,8 @@ type env struct {
 	running   map[int]*liveQuery // goroutine -> live query whose function is running on it
 	readEarly []string
 	runMu     sync.Mutex
+	layoutMu  sync.Mutex
+	needMap   map[string]bool // the next rows event of the table is preceded by a TableMapEvent
 }
 
 var envs sync.Map // tracker -> *env
@@ -389,7 +393,8 @@ type result struct {
 	failures []vh.Failure
 	hist     []string
 	e        *env
-	layouts  map[string]*livesim.MySQLOrder
+	layouts  map[string]*livesim.MySQLOrder   // current version per table
+	versions map[string][]*livesim.MySQLOrder // every version, for the model's tables
 	key      string
 	nontriv  bool
 	sample   map[string]interface{}
@@ -400,7 +405,7 @@ func (res *result) fail(sig, detail string) {
 }
 
 func runCase(schema *sqlgen.Schema, c Case) (res *result) {
-	res = &result{c: c, layouts: map[string]*livesim.MySQLOrder{}}
+	res = &result{c: c, layouts: map[string]*livesim.MySQLOrder{}, versions: map[string][]*livesim.MySQLOrder{}}
 	defer func() {
 		if p := recover(); p != nil {
 			res.fail("harness-panic", fmt.Sprint(p))
@@ -412,16 +417,25 @@ func runCase(schema *sqlgen.Schema, c Case) (res *result) {
 	for _, d := range livesim.Catalogue {
 		m := livesim.Layout(r, d)
 		res.layouts[d.Name] = m
+		res.versions[d.Name] = []*livesim.MySQLOrder{m}
 		m.Create(srv)
 	}
-	conn := srv.DB()
+	var layoutMu sync.Mutex
+	conn := livesim.WrapDB(srv, func(table string) []string {
+		layoutMu.Lock()
+		defer layoutMu.Unlock()
+		if m := res.layouts[table]; m != nil {
+			return m.ColumnNames()
+		}
+		return nil
+	})
 	defer conn.Close()
 	db := sqlgen.NewDB(conn, schema)
 	ldb := livesql.NewLiveDB(db)
 	lg := &quietLogger{}
 	vb := livesql.NewVerifBinlog(ldb, database, lg)
 	e := &env{rids: map[interface{}]int{}, ridQuery: map[int]*liveQuery{}, invalid: map[int]bool{}, removed: map[int]bool{},
-		running: map[int]*liveQuery{}}
+		running: map[int]*liveQuery{}, needMap: map[string]bool{"users": true, "items": true}}
 	// every SELECT issued from a live query's function: the dependency must already be registered
 	srv.FailNext = func(kind, sql string) error {
 		if kind != "query" || !strings.HasPrefix(strings.ToUpper(strings.TrimSpace(sql)), "SELECT") {
@@ -481,7 +495,9 @@ func runCase(schema *sqlgen.Schema, c Case) (res *result) {
 		corruptPct = 100
 	}
 	srv.OnCommit(func(table string, before, after []driver.Value) {
+		layoutMu.Lock()
 		m := res.layouts[table]
+		layoutMu.Unlock()
 		var b, a []interface{}
 		if before != nil {
 			b = m.BinlogRow(before)
@@ -489,7 +505,7 @@ func runCase(schema *sqlgen.Schema, c Case) (res *result) {
 		if after != nil {
 			a = m.BinlogRow(after)
 		}
-		p := &pushed{table: table}
+		p := &pushed{table: table, layout: m}
 		switch {
 		case b == nil:
 			p.kind, p.rows = "write", [][]interface{}{a}
@@ -528,7 +544,11 @@ func runCase(schema *sqlgen.Schema, c Case) (res *result) {
 				}
 			}
 		}
-		p.what = fmt.Sprintf("%s %s %v", p.kind, table, p.rows)
+		p.what = fmt.Sprintf("%s %s (table id %d) %v", p.kind, table, m.TableID, p.rows)
+		if e.needMap[table] || r.Chance(40) { // MySQL sends the table map before the rows events of a statement
+			e.needMap[table] = false
+			e.pending = append(e.pending, &pushed{table: table, tableMap: true, layout: m})
+		}
 		e.pending = append(e.pending, p)
 		e.mu.Unlock()
 	})
@@ -541,7 +561,7 @@ func runCase(schema *sqlgen.Schema, c Case) (res *result) {
 		batch := e.pending[:n]
 		e.pending = e.pending[n:]
 		for _, p := range batch {
-			if !p.foreign {
+			if !p.foreign && !p.tableMap {
 				e.inflight = append(e.inflight, p)
 			}
 		}
@@ -552,13 +572,19 @@ func runCase(schema *sqlgen.Schema, c Case) (res *result) {
 			if p.foreign {
 				dbn = "otherdb"
 			}
-			switch p.kind {
-			case "write":
-				ev = livesim.RowsEvent(dbn, p.table, nil, p.rows[0])
-			case "delete":
-				ev = livesim.RowsEvent(dbn, p.table, p.rows[0], nil)
+			id := uint64(1)
+			if p.layout != nil {
+				id = p.layout.TableID
+			}
+			switch {
+			case p.tableMap:
+				ev = livesim.TableMapEvent(dbn, p.table, id, len(p.layout.Cols))
+			case p.kind == "write":
+				ev = livesim.RowsEvent(dbn, p.table, id, nil, p.rows[0])
+			case p.kind == "delete":
+				ev = livesim.RowsEvent(dbn, p.table, id, p.rows[0], nil)
 			default:
-				ev = livesim.RowsEvent(dbn, p.table, p.rows[0], p.rows[0])
+				ev = livesim.RowsEvent(dbn, p.table, id, p.rows[0], p.rows[0])
 				ev.Event.(*replication.RowsEvent).Rows = p.rows
 			}
 			vb.Events <- ev
@@ -720,18 +746,51 @@ func runCase(schema *sqlgen.Schema, c Case) (res *result) {
 		// refresh the id sets from the server
 		userIDs, itemIDs = map[int64]bool{}, map[string]bool{}
 		for _, row := range srv.Rows("users") {
-			for j, cm := range res.layouts["users"].Cols {
+			for j, cm := range livesim.Def("users").Cols {
 				if cm.Name == "id" {
 					userIDs[row[j].(int64)] = true
 				}
 			}
 		}
 		for _, row := range srv.Rows("items") {
-			for j, cm := range res.layouts["items"].Cols {
+			for j, cm := range livesim.Def("items").Cols {
 				if cm.Name == "key" {
 					itemIDs[row[j].(string)] = true
 				}
 			}
+		}
+		alterPct := 12
+		if c.Intense {
+			alterPct = 25
+		}
+		if !minimal && commit == nil && r.Chance(alterPct) {
+			// ALTER TABLE.  The binlog is drained first: livesql reads information_schema when it meets the first
+			// rows event after a new table id, and documents that a schema read "too new" for events still in
+			// flight is a race it does not handle.
+			deliver(1 << 20)
+			for i := 0; i < 4000; i++ {
+				e.mu.Lock()
+				n := len(e.inflight)
+				e.mu.Unlock()
+				if n == 0 {
+					break
+				}
+				time.Sleep(500 * time.Microsecond)
+			}
+			table := "users"
+			if r.Chance(35) {
+				table = "items"
+			}
+			layoutMu.Lock()
+			nm, kind := res.layouts[table].Alter(r)
+			res.layouts[table] = nm
+			res.versions[table] = append(res.versions[table], nm)
+			layoutMu.Unlock()
+			e.mu.Lock()
+			e.needMap[table] = true
+			e.mu.Unlock()
+			res.hist = append(res.hist, "alter:"+kind)
+			opsDesc = append(opsDesc, fmt.Sprintf("alter %s %s -> %v", table, kind, nm.ColumnNames()))
 		}
 		if r.Chance(10) { // an event of another database: ignored by RunPollLoop
 			e.mu.Lock()
@@ -978,13 +1037,14 @@ func main() {
 func caseTerm(g *livesim.Terms, schema *sqlgen.Schema, res *result) string {
 	var tabs []string
 	for _, d := range livesim.Catalogue {
-		m := res.layouts[d.Name]
-		var src []string
-		for _, j := range m.Source() {
-			src = append(src, vh.CoqZ(int64(j)))
+		for _, m := range res.versions[d.Name] {
+			var src []string
+			for _, j := range m.Source() {
+				src = append(src, vh.CoqZ(int64(j)))
+			}
+			tabs = append(tabs, fmt.Sprintf("(%s, (%s, %s, %s))", vh.CoqString(fmt.Sprintf("%s#%d", d.Name, m.TableID)),
+				livesim.TableTerm(schema.ByName[d.Name]), vh.CoqZ(int64(len(m.Cols))), vh.CoqList(src)))
 		}
-		tabs = append(tabs, fmt.Sprintf("(%s, (%s, %s, %s))", vh.CoqString(d.Name), livesim.TableTerm(schema.ByName[d.Name]),
-			vh.CoqZ(int64(len(m.Cols))), vh.CoqList(src)))
 	}
 	regs := map[int]tev{}
 	var evs []string
@@ -1014,7 +1074,8 @@ func caseTerm(g *livesim.Terms, schema *sqlgen.Schema, res *result) string {
 				vs = append(vs, fmt.Sprintf("(%d%%nat, %s)", rid, vh.CoqBool(t.verdicts[rid])))
 			}
 			kind := map[string]string{"write": "EWrite", "update": "EUpdate", "delete": "EDelete"}[t.ev.kind]
-			evs = append(evs, fmt.Sprintf("TProcess %s %s %s %s %s", vh.CoqString(t.table), kind, vh.CoqList(rows),
+			evs = append(evs, fmt.Sprintf("TProcess %s %s %s %s %s %s", vh.CoqString(t.table),
+				vh.CoqString(fmt.Sprintf("%s#%d", t.ev.table, t.ev.layout.TableID)), kind, vh.CoqList(rows),
 				vh.CoqBool(t.obsErr), vh.CoqList(vs)))
 		}
 	}
